@@ -51,7 +51,9 @@ def len_class(n: int) -> str:
 
 def addr_class(a: int, n: int, shift: int) -> str:
     s = a + shift
-    if s < 0:
+    if a < 0 or s < 0:
+        # a negative block address is not an address at all: refusing it and (with the copier
+        # shift) writing it at a+0x200 are both accepted; if accepted the image must still match
         return "negative"
     if s >= TOP:
         return ">=2^24"
@@ -311,6 +313,7 @@ def run_case(case: dict[str, Any], stats: Stats) -> list[Violation]:
     header = bool(case["header"])
     shift = 0x200 if header else 0
     stats.evaluations += 1
+    stats.chain_add(res["events"], res["fired"], res.get("refused_at"), res.get("refusal"), res.get("fault_in_call"), res.get("image_digest"), res.get("file_len"), res["verdicts"])
     stats.io_ops += len(res["events"])
     for f in res["fired"]:
         stats.bump(f"fault_fired:{f['op']}:{f['role']}:{f['errno']}")
